@@ -11,8 +11,9 @@ GRAMMARS = [
     '%import mod.item\nstart: item "b"?\n%ignore " "\n',
     'start: "a"\nx: "b"\n//',
     'start: "a"\nx: "b"\n//startx',
+    'start: (A | B)+\nA.2: /a/\nB: /a+/\n%ignore " "\n',
 ]
-OPTS = [{}, {'maybe_placeholders': False}, {'keep_all_tokens': True}, {'lexer': 'basic'}, {'propagate_positions': True}, {'start': 'x'}, {'g_regex_flags': 2}, {'_dir': 'B'}, {'_dir': 'B', 'maybe_placeholders': False}]
+OPTS = [{}, {'maybe_placeholders': False}, {'keep_all_tokens': True}, {'lexer': 'basic'}, {'propagate_positions': True}, {'start': 'x'}, {'g_regex_flags': 2}, {'_dir': 'B'}, {'_dir': 'B', 'maybe_placeholders': False}, {'priority': None}, {'priority': 'invert'}, {'priority': 'normal'}, {'_pkg': True}, {'_pkg': True, 'keep_all_tokens': True}]
 IMPORTS = ['item: "a"\n', 'item: "a" | "b" "a"\n', 'item: "b"+\n']
 PROBES = ['', 'a', 'b', 'ab', 'aab', 'a a b', 'ba', 'bb a', 'aaa', 'A']
 
@@ -50,7 +51,12 @@ def _history(args):
     d = tempfile.mkdtemp(prefix='larkverif_c12_')
     try:
         path = os.path.join(d, 'cache.bin')
-        dirs = {'A': os.path.join(d, 'A'), 'B': os.path.join(d, 'B')}
+        # directory A lives inside an importable package, so that the same module can also be reached through a package loader (PackageResource in used_files)
+        import sys
+        pkg = 'larkverif_pkg_%d_%d' % (os.getpid(), seed)
+        os.mkdir(os.path.join(d, pkg)); open(os.path.join(d, pkg, '__init__.py'), 'w').close()
+        sys.path.insert(0, d)
+        dirs = {'A': os.path.join(d, pkg, 'A'), 'B': os.path.join(d, 'B')}
         for x in dirs.values(): os.mkdir(x)
         pool = []
         while len(pool) < 4:
@@ -68,6 +74,9 @@ def _history(args):
             write_if_changed(os.path.join(dirs['B'], 'mod.lark'), IMPORTS[(imp + 1) % len(IMPORTS)])
             gi, oi = req
             o = dict(OPTS[oi]); dname = o.pop('_dir', 'A')
+            if o.pop('_pkg', False):
+                from lark.load_grammar import FromPackageLoader
+                return Lark(GRAMMARS[gi], **o, parser='lalr', import_paths=[FromPackageLoader(pkg, ('A',))], cache=cache)
             return Lark(GRAMMARS[gi], **o, parser='lalr', import_paths=[dirs[dname]], cache=cache)
         uses_import = lambda req: 'import' in GRAMMARS[req[0]]
         # reference behaviour and cache keys, learned from lark itself on separate paths
@@ -147,6 +156,9 @@ def _history(args):
         return {'pool': [[GRAMMARS[g], OPTS[o]] for g, o in pool], 'ops': ops, 'obs': obs, 'failures': failures, 'import_req': [uses_import(r) for r in pool]}
     finally:
         shutil.rmtree(d, ignore_errors=True)
+        import sys
+        if d in sys.path: sys.path.remove(d)
+        sys.modules.pop('larkverif_pkg_%d_%d' % (os.getpid(), seed), None)
 
 
 def _f5(args):
@@ -186,7 +198,7 @@ def _sweep(args):
     d = tempfile.mkdtemp(prefix='larkverif_c12_')
     try:
         path = os.path.join(d, 'c.bin')
-        o = {k: v for k, v in OPTS[oi].items() if k != '_dir'}
+        o = {k: v for k, v in OPTS[oi].items() if not k.startswith('_')}
         Lark(GRAMMARS[gi], **o, parser='lalr', cache=path)
         data = open(path, 'rb').read()
         ref = signature(Lark(GRAMMARS[gi], **o, parser='lalr'))
